@@ -18,12 +18,13 @@
  *                                     pcre_keyvalue_buffer_process -> go -|go m|err|fin m <hex>
  *   redir <code> <get-or-head> <http10> <rules> <cond> <url> <trace>
  *                                     mod_redirect_uri_handler -> none|err|<status> <location>
- *   rw <repeat_idx> <rules> <target> <cond> <scheme> <authority> <port> <parseopts> <table>
+ *   rw <repeat_idx> <rules> <target> <cond> <scheme> <authority> <server-name> <port> <parseopts> <table>
  *                                     http_request_parse_target + mod_rewrite_uri_handler, re-dispatched
  *                                     on HANDLER_COMEBACK like http_response_handler does
  *                                     -> served <target> <n>|status <code> <n>|failed <n>
- *                                     (an unset authority "~" makes ${url.authority} the server name "server.name")
- *   nf <kind> <handler> <repeat_idx> <rules> <target> <cond> <scheme> <authority> <port> <trace>
+ *                                     (authority "~" = no Host header: uri.authority is blank and
+ *                                     ${url.authority} is r->server_name = <server-name>)
+ *   nf <kind> <handler> <repeat_idx> <rules> <target> <cond> <scheme> <authority> <server-name> <port> <trace>
  *                                     mod_rewrite_physical (url.rewrite[-repeat]-if-not-file) with
  *                                     r->physical.path naming an object of the given kind in a scratch
  *                                     tree (reg dir dirslash missing missingslash lnreg lndir lndirslash
@@ -413,16 +414,16 @@ out:
 }
 
 static void op_rw(void) {
-    /* rw <ridx> <rules> <target> <cond> <scheme> <authority> <port> <opts> <table> */
+    /* rw <ridx> <rules> <target> <cond> <scheme> <authority> <srvname> <port> <opts> <table> */
     rules_t R; cond_t cond;
     memset(&cond, 0, sizeof(cond));
     int pr = parse_rules(ltv_tok[2], &R);
     if (pr < 0) { puts("badpat"); goto out; }
     if (!pr || !parse_cond(ltv_tok[4], &cond)) { puts("bad-op"); goto out; }
-    const int want_trace = (ltv_tok[9][0] == '?' && ltv_tok[9][1] == 0);
-    if (!want_trace && !(ltv_tok[9][0] == '.' && ltv_tok[9][1] == 0)) {
+    const int want_trace = (ltv_tok[10][0] == '?' && ltv_tok[10][1] == 0);
+    if (!want_trace && !(ltv_tok[10][0] == '.' && ltv_tok[10][1] == 0)) {
         /* verify every table entry against PCRE2 */
-        char *copy = strdup(ltv_tok[9]);
+        char *copy = strdup(ltv_tok[10]);
         char *ent[256];
         int n = split(copy, '|', ent, 256), ok = 1;
         for (int i = 0; i < n && ok; ++i) {
@@ -447,7 +448,8 @@ static void op_rw(void) {
         r->cond_match[0] = cond.present ? &cond.cache : NULL;
         r->plugin_ctx[p.id] = NULL;
         const int sport = scheme_port_of(ltv_tok[5]);
-        fixture_request(ltv_tok[5], ltv_tok[6], atoi(ltv_tok[7]), (unsigned int)atoi(ltv_tok[8]));
+        fixture_request(ltv_tok[5], ltv_tok[6], atoi(ltv_tok[8]), (unsigned int)atoi(ltv_tok[9]));
+        buf_set_hex(srvname_buf, ltv_tok[7]);
         buf_set_hex(&r->target, ltv_tok[3]);
         buffer_clear(&r->physical.path);
         buffer *table = buffer_init();
@@ -534,7 +536,7 @@ static int fs_path(const char *kind, buffer *out) {
 }
 
 static void op_nf(void) {
-    /* nf <kind> <handler> <ridx> <rules> <target> <cond> <scheme> <authority> <port> <trace> */
+    /* nf <kind> <handler> <ridx> <rules> <target> <cond> <scheme> <authority> <srvname> <port> <trace> */
     rules_t R; cond_t cond;
     memset(&cond, 0, sizeof(cond));
     int pr = parse_rules(ltv_tok[4], &R);
@@ -549,14 +551,15 @@ static void op_nf(void) {
         r->cond_match[0] = cond.present ? &cond.cache : NULL;
         r->plugin_ctx[p.id] = NULL;
         const int sport = scheme_port_of(ltv_tok[7]);
-        fixture_request(ltv_tok[7], ltv_tok[8], atoi(ltv_tok[9]), 0);
+        fixture_request(ltv_tok[7], ltv_tok[8], atoi(ltv_tok[10]), 0);
+        buf_set_hex(srvname_buf, ltv_tok[9]);
         buf_set_hex(&r->target, ltv_tok[5]);
         int status = http_request_parse_target(r, sport);
         if (status) {
-            if (ltv_tok[10][0] == '?' && ltv_tok[10][1] == 0) puts("trace ."); else printf("status %d\n", status);
+            if (ltv_tok[11][0] == '?' && ltv_tok[11][1] == 0) puts("trace ."); else printf("status %d\n", status);
             goto out;
         }
-        if (!check_trace(&R, &r->target, ltv_tok[10])) goto out;
+        if (!check_trace(&R, &r->target, ltv_tok[11])) goto out;
         if (!fs_path(ltv_tok[1], &r->physical.path)) { puts("bad-op"); goto out; }
         static plugin dummy_handler;
         r->handler_module = (ltv_tok[2][0] == '1') ? &dummy_handler : NULL;
@@ -647,8 +650,8 @@ int main(void) {
         else if (0 == strcmp(op, "subst") && ltv_ntok == 5) op_subst();
         else if (0 == strcmp(op, "proc") && ltv_ntok == 6) op_proc();
         else if (0 == strcmp(op, "redir") && ltv_ntok == 8) op_redir();
-        else if (0 == strcmp(op, "rw") && ltv_ntok == 10) op_rw();
-        else if (0 == strcmp(op, "nf") && ltv_ntok == 11) op_nf();
+        else if (0 == strcmp(op, "rw") && ltv_ntok == 11) op_rw();
+        else if (0 == strcmp(op, "nf") && ltv_ntok == 12) op_nf();
         else if (0 == strcmp(op, "alias") && ltv_ntok == 5) op_alias();
         else if (0 == strcmp(op, "svhost") && ltv_ntok == 4) op_svhost();
         else if (0 == strcmp(op, "evhost") && ltv_ntok == 3) op_evhost();
